@@ -129,6 +129,21 @@ func matchTerm(pat, g *Term, bound map[*Term]bool, b map[*Term]*Term, memo map[*
 		return false
 	}
 	for i := range pat.Args {
+		if pat.Op == "ite" && i == 0 {
+			// Conditions often differ by path conditions folded in while a spec function was inlined.
+			// Any instance of a quantified fact is a sound consequence, so matching may be lenient here:
+			// the branches determine the binding; a binding found in the condition is kept only if consistent.
+			trial := map[*Term]*Term{}
+			for k, v := range b {
+				trial[k] = v
+			}
+			if matchTerm(pat.Args[0], g.Args[0], bound, trial, memo) {
+				for k, v := range trial {
+					b[k] = v
+				}
+			}
+			continue
+		}
 		if !matchTerm(pat.Args[i], g.Args[i], bound, b, memo) {
 			return false
 		}
